@@ -366,7 +366,7 @@ REST_AREAS = {
     # the other executors (docker, http, jq, mail, ssh, sub-workflow): what a step "executes", how it is killed, where its output goes
     "ExecRest": {"C01", "C02", "C03", "C04", "C05", "C10", "C11", "C12", "C15"},
     # reporter / mailer / logger / config resolver / constants: what is reported after a run, where logs are opened
-    "Report": {"C04", "C05", "C08", "C12", "C16"},
+    "Report": {"C%02d" % i for i in range(1, 21)},   # (round 6: the config resolver decides which base configuration every command loads)
     # the daemon's file watcher (new / changed / removed DAG files reach the entry reader through it)
     "Notify": {"C09", "C13"},
     # the go-swagger generated server, parameter binding / validation, models, routes: every API request passes through it
@@ -387,6 +387,10 @@ def lean_obligations(chk, props_rel, tie=None, extra_targets=None, extra_props=N
     for area, props in REST_AREAS.items():
         if chk.prop in props and os.path.exists(os.path.join(LEAN, "BdModel", "Tie", area + ".lean")):
             tie.setdefault(area, None)
+    # the history store is read or written on the way of every property that reports, retries, guards or cleans up
+    # (round 6: C04, C12 were blind to it): at least its skeletons are tied by every check
+    if os.path.exists(os.path.join(LEAN, "BdModel", "Tie", "Hist.lean")):
+        tie.setdefault("Hist", None)
     # one check at a time between the extraction from ITS tree and the elaboration of the ties against it
     with Lock("lean-phase"):
         return _lean_obligations(chk, props_rel, tie, extra_targets, extra_props or [])
